@@ -10,7 +10,7 @@ import json, os, sys, hashlib
 
 GOROOT = os.environ.get("SIMRT_GOROOT", "/opt/veriftools/go1.26.8")
 SRC = os.path.join(GOROOT, "src")
-OUT = sys.argv[1] if len(sys.argv) > 1 else "/verif/build"
+OUT = os.path.abspath(sys.argv[1] if len(sys.argv) > 1 else "/verif/build")
 
 T = "\t"
 
@@ -154,6 +154,21 @@ func simYieldPoint() {
 func sync_runtime_simYield() {
 	simYieldPoint()
 }
+
+// simGoID identifies the calling goroutine (the simulator must not park its
+// own driver goroutine).
+//
+//go:linkname simGoID
+func simGoID() uint64 {
+	return getg().goid
+}
+
+// simBubbled reports whether the caller runs inside a synctest bubble.
+//
+//go:linkname simBubbled
+func simBubbled() bool {
+	return simrandOn != 0 && getg().bubble != nil
+}
 '''
 
 HUNKS = {
@@ -224,18 +239,18 @@ HUNKS = {
     "sync/mutex.go": [
         ("replace",
          "func (m *Mutex) Lock() {\n\tm.mu.Lock()\n}",
-         "func (m *Mutex) Lock() {\n\truntime_simYield()\n\tm.mu.Lock()\n}"),
+         "func (m *Mutex) Lock() {\n\truntime_simYield()\n\tif simLockHook != nil {\n\t\tsimLockHook()\n\t}\n\tm.mu.Lock()\n}"),
     ],
     "sync/rwmutex.go": [
         ("replace",
          "func (rw *RWMutex) RLock() {\n",
-         "func (rw *RWMutex) RLock() {\n\truntime_simYield()\n"),
+         "func (rw *RWMutex) RLock() {\n\truntime_simYield()\n\tif simLockHook != nil {\n\t\tsimLockHook()\n\t}\n"),
         ("replace",
          "func (rw *RWMutex) Lock() {\n",
-         "func (rw *RWMutex) Lock() {\n\truntime_simYield()\n"),
+         "func (rw *RWMutex) Lock() {\n\truntime_simYield()\n\tif simLockHook != nil {\n\t\tsimLockHook()\n\t}\n"),
     ],
     "sync/runtime.go": [
-        ("append", "\n//go:linkname runtime_simYield\nfunc runtime_simYield()\n"),
+        ("append", "\n//go:linkname runtime_simYield\nfunc runtime_simYield()\n\n// simLockHook, if set by the simulator, runs before every Lock/RLock; it may\n// park the calling goroutine until the simulator releases it.\n//\n//go:linkname simLockHook\nvar simLockHook func()\n"),
     ],
 }
 
